@@ -112,15 +112,6 @@ func runStraceCase(idx int, seed int64, tier string) vp.CaseResult {
 		key := netip.AddrPortFrom(ad, uint16(port)).String()
 		in, class := floorOf(ad)
 		switch {
-		case key == sd.Proxy:
-			id := "C18/proxy-env-honoured/strace-connect-log"
-			if !viol[id] {
-				viol[id] = true
-				res.Violations = append(res.Violations, vp.Violation{Property: "C18", Class: "proxy-env-honoured", Identity: id,
-					Detail:  "connect(2) to the listener named by HTTP_PROXY/HTTPS_PROXY/ALL_PROXY: " + key,
-					Case:    map[string]any{"index": idx, "scenario": "all dial scenarios under strace"},
-					Witness: line})
-			}
 		case !in:
 			res.Stats["strace_connects_public_by_range"]++
 		case permitted[key]:
@@ -131,7 +122,7 @@ func runStraceCase(idx int, seed int64, tier string) vp.CaseResult {
 			if !viol[id] {
 				viol[id] = true
 				res.Violations = append(res.Violations, vp.Violation{Property: "C18", Class: "connect-to-refused", Identity: id,
-					Detail:  fmt.Sprintf("connect(2) to %s (floor class %s), which is not an exact carved-out (IP,port) of any scenario of the child", key, class),
+					Detail:  fmt.Sprintf("connect(2) to %s (floor class %s), which is not an exact carved-out (IP,port) of any scenario of the child%s", key, class, map[bool]string{true: " - it is the NON-carved listener named by HTTP_PROXY/HTTPS_PROXY/ALL_PROXY", false: ""}[key == sd.Proxy]),
 					Case:    map[string]any{"index": idx, "scenario": "all dial scenarios under strace", "carved_out": sd.Permitted},
 					Witness: line})
 			}
